@@ -85,7 +85,7 @@ structure Machine where
   aux : κ → String
   parse : String → Option Val
   bad : Val → Bool := fun _ => false
-  keyed : Bool := false
+  keyed : Nat → Bool := fun _ => false
   ports : Nat
 
 abbrev Cfg := String × List (String × String)
@@ -124,6 +124,14 @@ def portsOf (c : Cfg) : Option Nat :=
     | some n => if 1 ≤ n && n ≤ 3 then some n else none
     | none => none
   else if ["for_each", "vec_push"].contains c.1 then some 0
+  else if c.1 == "pipe" then
+    match c.get "id" with
+    | some "1" => some 1
+    | some "2" => some 1
+    | some "3" => some 2
+    | some "4" => some 2
+    | some "5" => some 2
+    | _ => none
   else none
 
 def sortedPairs (m : List (Int × Int)) : List (Int × Int) :=
@@ -175,13 +183,13 @@ def mkMachine (c : Cfg) : Option Machine :=
     | none => none
     | some m =>
     pure { κ := KeyedSt Int Int, K := (foldKeyedC (K := Int) 0 fFold id).adapt (fun | .pair a b => some (a, b) | _ => none) (fun p => .pair p.1 p.2),
-           k := ⟨m, [], 0⟩, aux := fun k => showMap k.map, parse := fun s => (pPair s).map fun p => .pair p.1 p.2, keyed := true, ports := np }
+           k := ⟨m, [], 0⟩, aux := fun k => showMap k.map, parse := fun s => (pPair s).map fun p => .pair p.1 p.2, keyed := fun _ => true, ports := np }
   | "reduce_keyed" =>
     match parseMap c "map" with
     | none => none
     | some m =>
     pure { κ := KeyedSt Int Int, K := (reduceKeyedC (K := Int) fFold id).adapt (fun | .pair a b => some (a, b) | _ => none) (fun p => .pair p.1 p.2),
-           k := ⟨m, [], 0⟩, aux := fun k => showMap k.map, parse := fun s => (pPair s).map fun p => .pair p.1 p.2, keyed := true, ports := np }
+           k := ⟨m, [], 0⟩, aux := fun k => showMap k.map, parse := fun s => (pPair s).map fun p => .pair p.1 p.2, keyed := fun _ => true, ports := np }
   | "persist" =>
     match parseCsv c "buf" with
     | none => none
@@ -212,6 +220,38 @@ def mkMachine (c : Cfg) : Option Machine :=
     | none => none
     | some buf =>
     pure { κ := List Int, K := (collectC (α := Int)).adapt intV .int, k := buf, aux := showIntsDash, parse := pInt, ports := np }
+  | "pipe" =>
+    match c.get "id" with
+    | some "1" =>
+      match parseCsv c "buf" with
+      | none => none
+      | some buf =>
+      let K := (mapC fMap).comp ((flatMapC fFlat).comp ((persistC (α := Int)).comp (sortC (fun a b : Int => a ≤ b))))
+      pure { κ := Unit × List Int × PersistSt Int × SortSt Int, K := K.adapt intV .int,
+             k := ((), [], PersistSt.new buf true, ⟨[], false⟩), aux := fun k => showIntsDash k.2.2.1.buf, parse := pInt, ports := np }
+    | some "2" =>
+      let K := (filterC pFilter).comp ((flatMapC fFlat).comp (foldC fFold))
+      pure { κ := Unit × List Int × AccPhase Int Int, K := K.adapt intV .int, k := ((), [], .acc 0), aux := noAux, parse := pInt, ports := np }
+    | some "3" =>
+      let K := (flatMapC fFlat).comp (fanoutC.comp2 (idC (α := Int)) (filterMapC fFilterMap) 1)
+      pure { κ := List Int × Unit × Unit × Unit, K := K.adapt intV .int, k := ([], (), (), ()), aux := noAux, parse := pInt, ports := np }
+    | some "4" =>
+      match parseMap c "map" with
+      | none => none
+      | some m =>
+      let Ka : Comb (Unit × KeyedSt Int Int) Int Val :=
+        ((mapC (fun x : Int => (x % 2, x))).comp (foldKeyedC (K := Int) 0 fFold id)).adapt some (fun p => .pair p.1 p.2)
+      let Kb : Comb Unit Int Val := (idC (α := Int)).adapt some .int
+      let K := (fanoutC (α := Int)).comp2 Ka Kb 1
+      pure { κ := Unit × (Unit × KeyedSt Int Int) × Unit, K := K.adapt intV id, k := ((), ((), ⟨m, [], 0⟩), ()),
+             aux := fun k => showMap k.2.1.2.map, parse := pInt, keyed := fun p => p == 0, ports := np }
+    | some "5" =>
+      let Ka : Comb (Unit × List (QEntry Int)) Int Int :=
+        (mapC (fun x : Int => ((x % 4).toNat, x))).comp (resolveC (β := Int) true true)
+      let K := (fanoutC (α := Int)).comp2 Ka (idC (α := Int)) 1
+      pure { κ := Unit × (Unit × List (QEntry Int)) × Unit, K := K.adapt intV .int, k := ((), ((), []), ()),
+             aux := fun k => toString k.2.1.2.length, parse := pInt, ports := np }
+    | _ => none
   | "state" =>
     match parseCsv c "st" with
     | none => none
@@ -234,11 +274,11 @@ structure CaseSt where
   ended : Bool := false
   driverDone : Bool := false
 
-def showEvents (keyed : Bool) (es : List (PEv Val)) : String :=
+def showEvents (keyed : Nat → Bool) (es : List (PEv Val)) : String :=
   if es.isEmpty then "-" else
     " ".intercalate (es.map fun e => match e.2 with
       | .rdy b => s!"{e.1}r{if b then 1 else 0}"
-      | .snd x => if keyed then s!"{e.1}s*" else s!"{e.1}s{x.show}"
+      | .snd x => if keyed e.1 then s!"{e.1}s*" else s!"{e.1}s{x.show}"
       | .fin b => s!"{e.1}f{if b then 1 else 0}")
 
 def setAt (l : List α) (i : Nat) (x : α) : List α := l.set i x
